@@ -328,11 +328,73 @@ func (k *kvClient) Range(ctx context.Context, in *pb.RangeRequest, _ ...grpc.Cal
 	s := k.c.S
 	s.mu.Lock()
 	defer s.mu.Unlock()
+	if in.Revision > 0 && in.Revision != s.rev {
+		// read at a past revision (clientv3.WithRev), as paginating readers pin their follow-up pages
+		if in.Revision > s.rev {
+			return nil, rpctypes.ErrGRPCFutureRev
+		}
+		if in.Revision < s.compacted {
+			return nil, rpctypes.ErrGRPCCompacted
+		}
+		resp := s.rangeAtLocked(in)
+		if lost {
+			return nil, ErrInjected
+		}
+		return resp, nil
+	}
 	resp := s.rangeLocked(in)
 	if lost {
 		return nil, ErrInjected
 	}
 	return resp, nil
+}
+
+// rangeAtLocked answers a range request at the past revision r.Revision (compacted <= r.Revision < s.rev):
+// the current keys of the range with every later history entry undone (events carry the previous
+// key-value). The header carries the current revision, as etcd's does.
+func (s *Server) rangeAtLocked(r *pb.RangeRequest) *pb.RangeResponse {
+	snap := map[string]*mvccpb.KeyValue{}
+	for _, k := range s.keysInRange(r.Key, r.RangeEnd) {
+		snap[k] = s.toKV(k, s.kvs[k])
+	}
+	for i := len(s.history) - 1; i >= 0 && s.history[i].rev > r.Revision; i-- {
+		evs := s.history[i].events
+		for j := len(evs) - 1; j >= 0; j-- {
+			k := string(evs[j].Kv.Key)
+			if !inRange(k, r.Key, r.RangeEnd) {
+				continue
+			}
+			if evs[j].PrevKv != nil {
+				snap[k] = evs[j].PrevKv
+			} else {
+				delete(snap, k)
+			}
+		}
+	}
+	keys := make([]string, 0, len(snap))
+	for k := range snap {
+		keys = append(keys, k)
+	}
+	sort.Strings(keys)
+	resp := &pb.RangeResponse{Header: s.header(), Count: int64(len(keys))}
+	if r.SortOrder == pb.RangeRequest_DESCEND && r.SortTarget == pb.RangeRequest_KEY {
+		sort.Sort(sort.Reverse(sort.StringSlice(keys)))
+	}
+	if r.CountOnly {
+		return resp
+	}
+	for i, k := range keys {
+		if r.Limit > 0 && int64(i) >= r.Limit {
+			resp.More = true
+			break
+		}
+		kv := &mvccpb.KeyValue{Key: []byte(k), Value: append([]byte(nil), snap[k].Value...), CreateRevision: snap[k].CreateRevision, ModRevision: snap[k].ModRevision, Version: snap[k].Version, Lease: snap[k].Lease}
+		if r.KeysOnly {
+			kv.Value = nil
+		}
+		resp.Kvs = append(resp.Kvs, kv)
+	}
+	return resp
 }
 
 func (k *kvClient) Put(ctx context.Context, in *pb.PutRequest, _ ...grpc.CallOption) (*pb.PutResponse, error) {
